@@ -12,6 +12,11 @@ import (
 
 	"google.golang.org/grpc/balancer"
 	"google.golang.org/grpc/connectivity"
+	"google.golang.org/grpc/internal/balancer/stub"
+	internalserviceconfig "google.golang.org/grpc/internal/serviceconfig"
+	"google.golang.org/grpc/internal/xds/testutils/fakeclient"
+	"google.golang.org/grpc/internal/xds/xdsclient/xdsresource"
+	"google.golang.org/grpc/resolver"
 	"google.golang.org/grpc/internal/wrr"
 	"google.golang.org/grpc/internal/xds/clients"
 	"google.golang.org/grpc/internal/xds/xdsclient"
@@ -242,6 +247,11 @@ func vWRandExec(cfg []int64, ops [][]int64) ([][]int64, bool, []string) {
 				tags["edf"] = true
 				nt = true
 			}
+		case op[0] == 8 && len(op) == 4:
+			pushed, admitted := vWRandConfigUpdate(uint32(op[1]), uint32(op[2]), op[3])
+			obs = append(obs, []int64{pushed, admitted})
+			tags["cfg-update"] = true
+			nt = true
 		default:
 			obs = append(obs, []int64{})
 		}
@@ -252,6 +262,80 @@ func vWRandExec(cfg []int64, ops [][]int64) ([][]int64, bool, []string) {
 	}
 	sort.Strings(tl)
 	return obs, nt, tl
+}
+
+// vWRandConfigUpdate drives the real cluster_impl balancer: the child goes READY under
+// max_requests = m1, then the config changes ONLY max_requests to m2 (the child, like
+// pick_first, does not push a picker again for an unchanged update), then k sequential picks,
+// none of which finishes, go through the picker the channel currently holds.
+const vWRandChildName = "verif-wrand-child"
+
+var vWRandChildOnce bool
+var vWRandChildSeen = map[*stub.BalancerData]bool{}
+var vWRandSeq int
+
+type vWRandBalCC struct {
+	balancer.ClientConn
+	states []balancer.State
+}
+
+func (c *vWRandBalCC) UpdateState(s balancer.State) { c.states = append(c.states, s) }
+func (c *vWRandBalCC) Target() string                { return "verif" }
+
+func vWRandConfigUpdate(m1, m2 uint32, k int64) (pushed int64, admitted int64) {
+	if !vWRandChildOnce {
+		vWRandChildOnce = true
+		stub.Register(vWRandChildName, stub.BalancerFuncs{
+			UpdateClientConnState: func(bd *stub.BalancerData, _ balancer.ClientConnState) error {
+				if !vWRandChildSeen[bd] { // first update only: report READY once
+					vWRandChildSeen[bd] = true
+					bd.ClientConn.UpdateState(balancer.State{ConnectivityState: connectivity.Ready, Picker: &vWRandInner{}})
+				}
+				return nil
+			},
+		})
+	}
+	vWRandSeq++
+	cluster := fmt.Sprintf("verif-cluster-%d", vWRandSeq) // fresh request counter
+	cc := &vWRandBalCC{}
+	b := balancer.Get(Name).Build(cc, balancer.BuildOptions{})
+	defer b.Close()
+	update := func(max uint32) {
+		mx := max
+		st := xdsclient.SetClient(resolver.State{Endpoints: []resolver.Endpoint{{Addresses: []resolver.Address{{Addr: "1.1.1.1:1"}}}}}, fakeclient.NewClient())
+		st = xdsresource.SetXDSConfig(st, &xdsresource.XDSConfig{
+			Clusters: map[string]*xdsresource.ClusterResult{
+				cluster: {Config: xdsresource.ClusterConfig{
+					Cluster:        &xdsresource.ClusterUpdate{ClusterName: cluster, ClusterType: xdsresource.ClusterTypeEDS, EDSServiceName: "svc", MaxRequests: &mx},
+					EndpointConfig: &xdsresource.EndpointConfig{EDSUpdate: &xdsresource.EndpointsUpdate{}},
+				}},
+			},
+		})
+		b.UpdateClientConnState(balancer.ClientConnState{
+			ResolverState:  st,
+			BalancerConfig: &LBConfig{Cluster: cluster, ChildPolicy: &internalserviceconfig.BalancerConfig{Name: vWRandChildName}},
+		})
+	}
+	update(m1)
+	before := len(cc.states)
+	update(m2)
+	pushed = int64(len(cc.states) - before)
+	if len(cc.states) == 0 {
+		return pushed, -1
+	}
+	p := cc.states[len(cc.states)-1].Picker
+	if k < 0 {
+		k = 0
+	}
+	if k > 64 {
+		k = 64
+	}
+	for i := int64(0); i < k; i++ {
+		if _, err := p.Pick(balancer.PickInfo{Ctx: context.Background()}); err == nil {
+			admitted++
+		}
+	}
+	return pushed, admitted
 }
 
 type vWRandLoad struct{ dropped []string }
@@ -318,6 +402,10 @@ func vWRandGen(r *vRand, tier string, idx int) ([]int64, [][]int64) {
 			for i := 0; i < 5; i++ {
 				ops = append(ops, []int64{6})
 			}
+		}
+		// config updates through the real balancer: only max_requests changes (up, down, same)
+		for _, p := range [][3]int64{{5, 2, 8}, {2, 5, 8}, {3, 3, 6}, {5, 0, 3}, {0, 4, 6}, {1024, 1, 4}, {4, 4294967295, 10}} {
+			ops = append(ops, []int64{8, p[0], p[1], p[2]})
 		}
 	case idx == 3:
 		for _, ws := range [][]int64{{1}, {1, 1}, {1, 2}, {3, 1}, {1, 2, 3}, {5, 3, 2}, {7, 1, 1, 1}, {10, 1}, {2, 2, 2}, {1, 100}} {
@@ -410,6 +498,9 @@ func vWRandGen(r *vRand, tier string, idx int) ([]int64, [][]int64) {
 		}
 		for i := 0; i < 12; i++ {
 			ops = append(ops, []int64{6})
+		}
+		for i := 0; i < 6; i++ {
+			ops = append(ops, []int64{8, r.PickI64(0, 1, 2, 5, 8, 1024), r.PickI64(0, 1, 2, 3, 5, 8, 1024), int64(r.Intn(14))})
 		}
 	default:
 		for i := 0; i < 8; i++ {
